@@ -54,8 +54,15 @@ func ResetGlobals() {
 		return
 	}
 	timing.ResetIDGenerator()
+	if KeepRegistries {
+		return // what a user can do between two runs in one process: only the public ID reset
+	}
 	tracing.VerifResetRegistries()
 }
+
+// KeepRegistries makes ResetGlobals leave the tracing package's process-global
+// task-ID side tables alone (there is no public way to clear them).
+var KeepRegistries bool
 
 var scratchSet bool
 
